@@ -346,8 +346,9 @@ def _reader_after_k(k):
     return mk
 
 
-def _second_reader_after_k(k):
-    """reader 11 passes k of its gated operations, then reader 12 (same Table object) runs a whole read, then 11 goes on"""
+def _second_reader_after_k(k, j=None):
+    """reader 11 passes k of its gated operations, then (a whole commit, then) reader 12 (same Table object) runs — its whole read, or
+    only its first j gated operations, after which 11 runs to its end before 12 goes on"""
     def mk(rng):
         streak = {"n": 0}
 
@@ -357,6 +358,9 @@ def _second_reader_after_k(k):
                 return 11
             if 1 in ready:              # a whole commit first (if the case has a writer), then the second reader
                 return 1
+            if j is not None and len([1 for a, _w in s.trace if a == 12]) >= j and 11 in ready and streak.get("n11", 0) < 150:
+                streak["n11"] = streak.get("n11", 0) + 1
+                return 11               # 12 stands in the middle of its read: 11 finishes first (unless it waits for something 12 holds)
             if 12 in ready and streak["n"] < 150:
                 streak["n"] += 1
                 return 12
@@ -405,6 +409,11 @@ def directed_sweep(ctx, rep, base, model_ok, next_id):
             next_id += 1
             try:
                 run_case(ctx, rep, c, base, model_ok)
+                for j in ((3, 6, 9) if not (ctx.thorough or ctx.intensify) else range(1, 14)):
+                    c2 = dict(c, id=next_id, chooser=_second_reader_after_k(k, j))
+                    next_id += 1
+                    run_case(ctx, rep, c2, base, model_ok)
+                    rep.distribution["directed-shared-handle-readers"] += 1
             except sched.Stuck as e:
                 rep.notes.append(f"shared-handle readers {api}/k={k} stuck: {e}")
                 break
